@@ -13,6 +13,26 @@ def lm_plain(lm):
     return {int(a): [int(x) for x in b] for a, b in lm.items()}
 
 
+_FRESH = {'n': 0}
+
+
+def fresh_scores(k, G, flag):
+    """calculate_intersection_score on this graph in a fresh interpreter (at most 40 times per worker)."""
+    import subprocess, sys, json, os
+    if _FRESH['n'] >= 40:
+        return None
+    _FRESH['n'] += 1
+    code = ("import sys,json;sys.path.insert(0,%r);import numpy as np,dsw;"
+            "G=json.loads(sys.argv[1]);lm=dsw.accessor_to_latter_map(np.array(G));"
+            "print(json.dumps(dsw.calculate_intersection_score(latter_map=lm,observed_length=%d,has_insertion=%r,has_deletion=%r).tolist()))"
+            % (core.REPO, k, bool(flag[0]), bool(flag[1])))
+    try:
+        p = subprocess.run([sys.executable, '-c', code, json.dumps(G)], capture_output=True, text=True, timeout=300)
+        return json.loads(p.stdout.strip().splitlines()[-1])
+    except Exception:
+        return None
+
+
 def transition(r, k, acc0, flag, path, rev=False):
     """One real remove_nasty_arc call from the state acc0 (numpy, not modified).  Returns the next
     accessor (numpy) or None when the call raised."""
@@ -41,7 +61,17 @@ def transition(r, k, acc0, flag, path, rev=False):
         elif np.any((sc > 0) & (acc0 < 0)):
             r.v(sig + 'positive-score-on-missing-arc', 'step', case)
         elif U.rows(sc) != ref:
-            r.v(sig + 'scores-differ-from-a-fresh-computation', 'step', case, None, None, 'calculate_intersection_score on a copy of the pre-state vs reference')
+            # Either the scores depend on earlier calls (a violation) or the scoring formula was changed on purpose
+            # (then the reference does not apply).  A fresh interpreter decides.
+            fresh = fresh_scores(k, U.rows(acc0), flag)
+            if fresh is not None and fresh == U.rows(sc):
+                r.ctr['reference_formula_not_applicable'] += 1
+                ref = fresh
+            else:
+                r.v(sig + 'scores-differ-from-a-fresh-computation', 'step', case, None, None,
+                    'calculate_intersection_score on a copy of the pre-state differs from the same call in a fresh process')
+                if fresh is not None:
+                    ref = fresh
     else:
         sc = None
     st, res, _ = brun(dsw.remove_nasty_arc, accessor=acc, latter_map=lm, has_insertion=flag[0], has_deletion=flag[1], lim=50000000)
